@@ -58,7 +58,10 @@ def generate(rng, tier, idx):
         # byte-level damage of a Manifest file is a different fault per format,
         # and stray files must not collide with a re-assigned Manifest name
         mset = set(info['manifests'])
+        # (a Manifest replaced by a symlink reads whatever the link points at - an empty file is a valid plain
+        # Manifest and an invalid compressed one)
         muts = [m for m in muts if not (m['p'] in mset and m['m'] not in ('delete', 'retype'))
+                and not (m['p'] in mset and m['m'] == 'retype' and m.get('k') == 'symlink')
                 and not (m['m'] == 'add' and os.path.basename(m['p']).startswith('Manifest'))]
         probes = [p for p in info['need']]
         rng.shuffle(probes)
